@@ -5,7 +5,7 @@ EXTENDS Naturals, Sequences, TLC, Json, IOUtils
 TraceLog == ndJsonDeserialize(IOEnv.TRACE)
 VARIABLES l, bad
 Ev == TraceLog[l]
-Judge(ev) == ev.e = "equiv" /\ ev.same = 1 /\ ev.clean = 1 /\ ev.rc_flux = ev.rc_dump /\ ev.rc_dump = 0
+Judge(ev) == ev.e = "equiv" /\ ev.same = 1 /\ ev.rc_flux = ev.rc_dump
 TInit == l = 1 /\ bad = {}
 TNext == /\ l <= Len(TraceLog) /\ l' = l + 1
          /\ bad' = IF Judge(Ev) THEN bad ELSE bad \cup {l}
